@@ -50,12 +50,16 @@ def go_bin():
 
 
 def build_driver(workdir, race=False):
-    """Builds the test driver against /repo's current working tree with hooks on."""
+    """Builds the test driver against the repository's current working tree (REPO, normally /repo)
+    with hooks on. The harness module is copied into the private work directory first, so that
+    concurrent invocations (and development runs against a scratch worktree, $VERIF_REPO) never
+    share a go.mod / go.sum."""
     os.makedirs(workdir, exist_ok=True)
-    h = os.path.join(VERIF, 'harness')
+    h = os.path.join(workdir, 'harness')
+    shutil.rmtree(h, ignore_errors=True)
+    shutil.copytree(os.path.join(VERIF, 'harness'), h)
     shutil.copyfile(os.path.join(REPO, 'go.sum'), os.path.join(h, 'go.sum'))
-    if REPO != '/repo':   # private worktree of the repository (development only)
-        sh([go_bin(), 'mod', 'edit', '-replace', 'github.com/avos-io/goat=' + REPO], cwd=h, env=GOENV)
+    sh([go_bin(), 'mod', 'edit', '-replace', 'github.com/avos-io/goat=' + REPO], cwd=h, env=GOENV)
     out = os.path.join(workdir, 'driver.test')
     cmd = [go_bin(), 'test', '-c', '-tags', 'verif', '-o', out]
     env = dict(GOENV)
